@@ -42,6 +42,7 @@ fn c09(seed: u64, case_index: u64, threads: usize, max_n: usize, ops: &str) -> i
             &GenLimits {
                 max_n,
                 min_n: 0,
+                max_n_3d: usize::MAX,
                 dim_weights: [1, 2, 6],
             },
         );
